@@ -122,7 +122,9 @@ def judge(trace, name, mod, tmp, alt_privs=None, split=None):
         vars_ = backends.apply_trace(trace[:split], mod)
         mod.prove()
         backends.apply_trace(trace[split:], mod, vars_)
-        mod.prove()
+        msg = backends.prove_over_stale(mod, tmp, ("computation.zkif", "circuit.zkif"))
+        if msg:
+            return "after the second prove(): " + msg
         ref = backends.reference(trace, p0)
         try:
             mcomp = fbreader.read_file(open(os.path.join(tmp, "computation.zkif"), "rb").read())
